@@ -1,6 +1,7 @@
 //! C05 — every chunk is returned to the base allocator exactly once and fits; reset keeps the largest chunk;
 //! reset_to_start / scope exits release nothing; an unused unallocated Bump never calls the base allocator.
 //! The logging stub (`common::va_deallocate`) checks every release against the grant log.
+use crate::check;
 use crate::common::*;
 use bump_scope::alloc::Allocator;
 use bump_scope::settings::BumpAllocatorSettings;
@@ -18,7 +19,7 @@ where
     }
     set_budget(1);
     let Ok(mut bump) = Bump::<A, St>::try_new() else {
-        assert!(grants() == 0, "C05: a failed constructor left a grant behind");
+        check!(grants() == 0, "C05: a failed constructor left a grant behind");
         return;
     };
     set_budget(0);
@@ -37,14 +38,14 @@ where
         set_budget(0);
         if r2.is_err() {
             // a failed chunk creation links nothing
-            assert!(bump.stats().count() == n_after_1, "C05/C07: a failed allocation changed the chunk list");
+            check!(bump.stats().count() == n_after_1, "C05/C07: a failed allocation changed the chunk list");
         }
     }
     let n = bump.stats().count();
     kani::cover!(n == 1, "[c1] one chunk");
     kani::cover!(n == 2, "[c2] two chunks");
     kani::cover!(n == 3, "[c3] three chunks");
-    assert!(live_grants() == n && grants() == n, "C05: chunks and live grants differ");
+    check!(live_grants() == n && grants() == n, "C05: chunks and live grants differ");
     let biggest = {
         let mut it = bump.stats().big_to_small();
         it.next().unwrap().size()
@@ -53,15 +54,15 @@ where
         0 => {}
         1 => {
             bump.reset();
-            assert!(bump.stats().count() == 1, "C05: reset did not keep exactly one chunk");
-            assert!(live_grants() == 1 && released() == n - 1, "C05: reset did not release all but one chunk");
-            assert!(bump.stats().size() == biggest, "C05: reset did not keep the largest chunk");
-            assert!(bump.stats().allocated() == 0, "C05/C03: reset left allocated bytes");
+            check!(bump.stats().count() == 1, "C05: reset did not keep exactly one chunk");
+            check!(live_grants() == 1 && released() == n - 1, "C05: reset did not release all but one chunk");
+            check!(bump.stats().size() == biggest, "C05: reset did not keep the largest chunk");
+            check!(bump.stats().allocated() == 0, "C05/C03: reset left allocated bytes");
         }
         2 => {
             bump.reset_to_start();
-            assert!(bump.stats().count() == n && live_grants() == n && released() == 0, "C05: reset_to_start released a chunk");
-            assert!(bump.stats().allocated() == 0, "C05/C03: reset_to_start left allocated bytes");
+            check!(bump.stats().count() == n && live_grants() == n && released() == 0, "C05: reset_to_start released a chunk");
+            check!(bump.stats().allocated() == 0, "C05/C03: reset_to_start left allocated bytes");
         }
         3 => {
             let l3 = any_layout(16, 3);
@@ -69,19 +70,19 @@ where
             bump.scoped(|s| {
                 let _ = s.allocate(l3);
             });
-            assert!(live_grants() == before && released() == 0, "C05: leaving a scope released a chunk");
+            check!(live_grants() == before && released() == 0, "C05: leaving a scope released a chunk");
         }
         _ => {
             let raw = bump.into_raw();
-            assert!(released() == 0, "C05: into_raw released a chunk");
+            check!(released() == 0, "C05: into_raw released a chunk");
             bump = unsafe { Bump::from_raw(raw) };
-            assert!(bump.stats().count() == n, "C05: from_raw lost chunks");
+            check!(bump.stats().count() == n, "C05: from_raw lost chunks");
         }
     }
     let remaining = live_grants();
     drop(bump);
-    assert!(live_grants() == 0, "C05: a chunk was not returned to the base allocator when the Bump was dropped");
-    assert!(released() == grants(), "C05: number of releases differs from the number of grants");
+    check!(live_grants() == 0, "C05: a chunk was not returned to the base allocator when the Bump was dropped");
+    check!(released() == grants(), "C05: number of releases differs from the number of grants");
     kani::cover!(remaining >= 2, "[several] dropped an arena with several chunks");
     kani::cover!(true, "END: harness ran to completion");
 }
@@ -132,8 +133,8 @@ fn release_unallocated_unused() {
                 unsafe { bump.reset_to(cp) };
             }
         }
-        assert!(bump.stats().count() == 0, "C10: unallocated arena reports chunks");
+        check!(bump.stats().count() == 0, "C10: unallocated arena reports chunks");
     }
-    assert!(calls() == 0, "C05: an unused unallocated Bump called the base allocator");
+    check!(calls() == 0, "C05: an unused unallocated Bump called the base allocator");
     kani::cover!(true, "END: harness ran to completion");
 }
